@@ -63,6 +63,19 @@ MenuFrac == <<
     [kind |-> "ok", len |-> 3, rows |-> (2 :> <<32, 0, 27>> @@ 1 :> <<63, 17, 16>>)],
     [kind |-> "ok", len |-> 2, rows |-> (1 :> <<33, 33>>)] >>
 
+\* long horizons (sampled only): many periods, wider recompute cadences, three stations, schedules
+\* reaching far beyond the allocated width
+MRWide == {0, 1, 3, 4}
+RecompWide == {{}, {1}, {0, 3}, {7, 15}, {19}}
+MenuWide == <<
+    [kind |-> "ok", len |-> 0, rows |-> <<>>],
+    [kind |-> "ok", len |-> 1, rows |-> (1 :> <<32>> @@ 2 :> <<16>> @@ 3 :> <<8>>)],
+    [kind |-> "ok", len |-> 3, rows |-> (3 :> <<24, 8, 16>> @@ 1 :> <<8, 8, 32>>)],
+    [kind |-> "ok", len |-> 7, rows |-> (2 :> <<8, 16, 24, 32, 0, 8, 16>>)],
+    [kind |-> "ok", len |-> 12, rows |-> (1 :> <<16, 16, 16, 16, 0, 0, 8, 8, 8, 8, 32, 32>> @@
+                                          3 :> <<32, 0, 32, 0, 32, 0, 32, 0, 32, 0, 32, 0>>)],
+    [kind |-> "unknown", len |-> 1, rows |-> (1 :> <<8>>)] >>
+
 \* hist is path information only: model checking identifies states without it.
 View == <<pc, durable, sigma, ghost>>
 =============================================================================
